@@ -260,13 +260,13 @@ def f8(ctx, rid):
     n = 0
     for f in prog.fns.values():
         for c in f.calls:
-            if c.name == 'poll' or not any(t.endswith('::delete_in_active') for t in prog.resolve(c)):
+            if c.name == 'poll' or not any(t.endswith('::delete_in_active') or t.endswith('::delete_in_closed') for t in prog.resolve(c)):
                 continue
             ob = core.ok_block(f, c)
             if ob is None:
                 continue
             n += 1
-            key = 'no-error-after-tombstone|%s' % prog.fns[f.id].root
+            key = 'no-error-after-tombstone|%s|%s' % (prog.fns[f.id].root, c.name)
             bad = None
             reach = f.reach_from([ob])
             for c2 in f.calls:
@@ -281,7 +281,7 @@ def f8(ctx, rid):
                 bad = c2
                 break
             if bad is not None:
-                ctx.bad(rid, key, bad.where(), 'after the deletion record was appended to the active blob (ok edge of delete_in_active) a failure of `%s` makes the whole delete return Err: the key is served as deleted from then on although the operation reported an error' % bad.name)
+                ctx.bad(rid, key, bad.where(), 'after deletion records were appended (ok edge of `%s`) a failure of `%s` makes the whole delete return Err: the key is served as deleted from then on although the operation reported an error' % (c.name, bad.name))
             else:
                 ctx.ok(rid, key, c.where(), 'no fallible step that can really fail follows the tombstone (closed-blob errors are logged inside delete_in_closed)')
     if n < 1:
@@ -325,6 +325,12 @@ def f10(ctx, rid):
     c03.i2(ctx, rid)
 
 
+def f11(ctx, rid):
+    """a quarantined blob is never overwritten by a later quarantine: blob ids are not reused (C07.H6 instances)"""
+    import props.c07 as c07
+    c07.h6(ctx, rid)
+
+
 RULES = [
     Rule('C11.X3', 'no err-exit is reachable between a move-out of shared state and its hand-back', x3, 4),
     Rule('C11.L1', 'an error while handling a worker message never ends the maintenance loop (C13.L1 instances)', l1, 4),
@@ -335,5 +341,6 @@ RULES = [
     Rule('C11.F8', 'once the tombstone is in the active blob the delete cannot be reported as failed', f8, 1),
     Rule('C11.F9', 'no file of the io layer is opened with O_APPEND (positional writes at reserved offsets must be honoured)', f9, 1),
     Rule('C11.F10', 'a stale index left behind by a failed dump is rejected at the next start (C03.I2 instances)', f10, 2),
+    Rule('C11.F11', 'blob ids in use in the work dir or the quarantine dir are never handed out again (C07.H6 instances)', f11, 3),
     Rule('C11.F6', 'an index file cut short by a failed dump is never trusted: written flag set in a second phase, extent checked at open (C03.I8/I5 instances)', f6, 2),
 ]
